@@ -514,7 +514,11 @@ write_call_args(std::ostream &call, const vector_string &pexprs) const {
 
   for (pn = _first_true_parameter;
        pn < num_parameters; ++pn) {
-    nassertd(pn < _parameters.size()) break;
+    if (pn >= _parameters.size()) {
+      // More argument expressions than the function has parameters.  (This
+      // used to be an assertion, which is compiled out.)
+      break;
+    }
     call << separator;
     _parameters[pn]._remap->pass_parameter(call, get_parameter_expr(pn, pexprs));
     separator = ", ";
